@@ -1,6 +1,7 @@
 import Lemmas.LogHandlers
 import Lemmas.LogHandlersErrs
 import Lemmas.TraceProto
+import Lemmas.TraceSync
 /-! # C13 — log handlers deliver each record whole, once, to every sink
 
 Property theorems only.  The definitions (`TL.render`, `TL.deliver`, `TL.withGroup`, `TL.withAttrs`, `TL.Buf.*`,
@@ -287,6 +288,80 @@ example :
   decide
 
 end Protocol
+
+/-! ## tracelog, synchronous mode: every schedule of goroutines that log through one handler family
+
+Instance `TraceSync.sys` of the generic mutex-bracket machine (`Model/Mutex.lean`, linearizability theorem
+`Mutex.linearizable_fun` in `Lemmas/MutexLin.lean`): an operation is the bracketed part of `Handle`
+(`Lock(); sink.Write(line); Unlock(); return err`), `Write` hands the line to the sink ONE BYTE PER MICRO-STEP (the sink
+is not assumed atomic) and returns the error the sink scripted for that call.  `progs t` is the list of lines goroutine
+`t` logs, `sch` any schedule, `c` the configuration it reaches. -/
+
+section Sync
+open Mutex TraceSync
+
+/-- "concurrent logging never interleaves two records": under EVERY schedule, whenever the lock is free the sink's
+    byte stream is exactly the lines of the finished calls one after the other, in the order in which the calls took
+    the lock; and while a goroutine is inside the bracket the stream is that, followed by a prefix of ITS line — no
+    byte of any other record can be in between -/
+theorem sync_records_never_interleave (errAt : Nat → Bool) (progs : Nat → List TraceSync.Bytes) (sch : List Nat)
+    (c : Mutex.Config Sink TraceSync.Bytes K Bool) (he : exec (sys errAt) true (init {} progs) sch = some c) :
+    (c.holder = none → c.shared.out = lines c.acq ∧ c.shared.calls = c.acq.length) ∧
+    (∀ t, c.holder = some t → ∃ line pre rest, c.acq = strip c.log ++ [(t, line)] ∧ pre ++ rest = line ∧
+      c.shared.out = lines (strip c.log) ++ pre) := by
+  obtain ⟨sm, hseq, hfree, hheld, _, _⟩ := linearizable (sys errAt) {} progs sch c he
+  have hsm := seqRuns_seqExec (sys errAt) (write errAt) (fun _ => True)
+    (fun op s _ => runs_write errAt op s) (fun _ _ _ => trivial) {} c.log sm trivial hseq
+  rw [seqExec_write] at hsm
+  have hout : sm.out = lines (strip c.log) := by
+    have := congrArg (fun x => x.2.out) hsm.1; simpa using this.symm
+  have hcalls : sm.calls = (strip c.log).length := by
+    have := congrArg (fun x => x.2.calls) hsm.1; simpa using this.symm
+  refine ⟨fun hn => ?_, fun t ht => ?_⟩
+  · obtain ⟨e1, e2⟩ := hfree hn
+    rw [e1, e2]; exact ⟨hout, hcalls⟩
+  · obtain ⟨op, k, _, hreach, hacq⟩ := hheld t ht
+    obtain ⟨pre, h1, h2⟩ := reach_prefix errAt op sm k c.shared hreach
+    exact ⟨op, pre, k.rest, hacq, h2, by rw [h1, hout]⟩
+
+/-- "synchronous mode preserves each goroutine's order": the order in which the calls took the lock — which by
+    `sync_records_never_interleave` is the order of the records in the sink — contains the calls of every goroutine in
+    that goroutine's program order: what `t` has logged so far, followed by what it still has to log, is its program -/
+theorem sync_preserves_goroutine_order (errAt : Nat → Bool) (progs : Nat → List TraceSync.Bytes) (sch : List Nat)
+    (c : Mutex.Config Sink TraceSync.Bytes K Bool) (he : exec (sys errAt) true (init {} progs) sch = some c) :
+    ∀ t, opsOf t c.acq ++ (c.threads t).todo = progs t := by
+  obtain ⟨_, _, _, _, _, hord⟩ := linearizable (sys errAt) {} progs sch c he
+  exact hord
+
+/-- "… and returns the sink's error": under every schedule, the `i`-th call to take the lock is the sink's `i`-th
+    `Write`, and what that call returns is the error the sink gave for exactly that `Write` (`errAt i`) — never the
+    error of another goroutine's record, never nil for a failed write; every goroutine's results are its part of
+    that log, in its own order -/
+theorem sync_returns_sink_error (errAt : Nat → Bool) (progs : Nat → List TraceSync.Bytes) (sch : List Nat)
+    (c : Mutex.Config Sink TraceSync.Bytes K Bool) (he : exec (sys errAt) true (init {} progs) sch = some c)
+    (hfree : c.holder = none) :
+    c.log = resultsFrom errAt 0 c.acq ∧ (∀ t, (c.threads t).res = resOf t c.log) := by
+  obtain ⟨h1, _, hres, _⟩ := linearizable_fun (sys errAt) (write errAt) (fun _ => True)
+    (fun op s _ => runs_write errAt op s) (fun _ _ _ => trivial) {} trivial progs sch c he hfree
+  rw [seqExec_write] at h1
+  exact ⟨(congrArg Prod.fst h1).symm, hres⟩
+
+/-- the lock is what does it: the same machine WITHOUT the bracket (`lock := false`) has a schedule on which the two
+    records "ab" and "cd" of two goroutines reach the sink as "acbd" — and none on which this happens with the lock -/
+example :
+    (exec (sys fun _ => false) false (init {} (fun t => if t = 0 then [[97, 98]] else if t = 1 then [[99, 100]] else []))
+      [0, 1, 0, 1, 0, 1, 0, 1, 0, 1]).map (fun c => c.shared.out) = some [97, 99, 98, 100] := by
+  decide
+
+/-- non-vacuity with the lock: a schedule of the same two goroutines; the second call's write fails and it is the
+    second caller that gets the error -/
+example :
+    (exec (sys fun i => i == 1) true (init {} (fun t => if t = 0 then [[97, 98]] else if t = 1 then [[99, 100]] else []))
+      [1, 1, 1, 1, 1, 0, 0, 0, 0, 0]).map (fun c => (c.shared.out, c.log)) =
+      some ([99, 100, 97, 98], [(1, [99, 100], false), (0, [97, 98], true)]) := by
+  decide
+
+end Sync
 
 /-! ## multilog -/
 
